@@ -153,6 +153,17 @@ noncomputable def ideal (b : ClosedBin ℝ) (mto : ℝ) : ℝ :=
 /-- IMF moment `k` of the part of the bin above `mto` -/
 noncomputable def above (k : ℝ) (b : ClosedBin ℝ) (mto : ℝ) : ℝ := b.A * PkCore b.a k (max b.l (min mto b.u)) b.u
 
+/-- the code's thin-aware mass is the plain formula whenever both moments are representable, and 0 for an empty bin -/
+theorem massOfT_eq (n a l u : ℝ) (h : ((resolution : ℝ) ≤ PkCore a 1 l u ∧ (resolution : ℝ) ≤ PkCore a 2 l u) ∨ n = 0) :
+    massOfT n a l u = massOf n a l u := by
+  unfold massOfT massOf
+  rcases h with ⟨h1, h2⟩ | h0
+  · simp only [real_one, real_two]
+    rw [C12.Pk_some_of_ge a 1 l u h1, C12.Pk_some_of_ge a 2 l u h2]
+  · subst h0
+    simp only [real_one, real_two]
+    cases Pk a 1 l u <;> cases Pk a 2 l u <;> simp
+
 theorem bin_losses (b : ClosedBin ℝ) (mto : ℝ) (hl : 0 < b.l) (hlu : b.l < b.u) :
     b.n0 - ideal b mto = above 1 b mto ∧
     b.A * PkCore b.a 2 b.l b.u - massOf (ideal b mto) b.a b.l (truncU b mto) = above 2 b mto := by
@@ -190,15 +201,18 @@ theorem sumL_cons (x : ℝ) (t : List ℝ) : sumL (x :: t) = x + sumL t := rfl
 theorem sumL_nil : sumL ([] : List ℝ) = 0 := by simp only [sumL, real_zero]
 
 /-- **loss bookkeeping**: with residue-free final counts the reported losses are the IMF number and mass above the final turn-off -/
-theorem losses_eq (bins : List (ClosedBin ℝ)) (mto : ℝ) (hpos : ∀ b ∈ bins, 0 < b.l ∧ b.l < b.u) :
+theorem losses_eq (bins : List (ClosedBin ℝ)) (mto : ℝ) (hpos : ∀ b ∈ bins, 0 < b.l ∧ b.l < b.u)
+    (hwide : ∀ b ∈ bins, ((resolution : ℝ) ≤ PkCore b.a 1 b.l (truncU b mto) ∧ (resolution : ℝ) ≤ PkCore b.a 2 b.l (truncU b mto)) ∨
+      ideal b mto = 0) :
     losses bins (bins.map (ideal · mto)) mto = (sumL (bins.map (above 1 · mto)), sumL (bins.map (above 2 · mto))) := by
   unfold losses
   induction bins with
   | nil => simp [sumL_nil]
   | cons b bs ih =>
     have hb := hpos b List.mem_cons_self
-    have ih' := ih (fun x hx => hpos x (List.mem_cons_of_mem _ hx))
+    have ih' := ih (fun x hx => hpos x (List.mem_cons_of_mem _ hx)) (fun x hx => hwide x (List.mem_cons_of_mem _ hx))
     obtain ⟨l1, l2⟩ := bin_losses b mto hb.1 hb.2
+    rw [← massOfT_eq _ _ _ _ (hwide b List.mem_cons_self)] at l2
     simp only [List.map_cons, List.zip_cons_cons, sumL_cons, Prod.mk.injEq] at ih' ⊢
     obtain ⟨i1, i2⟩ := ih'
     constructor
@@ -272,6 +286,8 @@ structure Statement : Prop where
   all_BH : ∀ (c : SevCfg ℝ) (off t : ℝ), 0 < c.a0 → 0 < c.a1 → c.a2 < 0 → 0 < c.ifmr.bhLo → 0 ≤ off →
     c.ifmr.wdHi ≤ c.ifmr.bhLo → c.a0 < t → t ≤ finalAge c off → predictType c.ifmr (mtoFin c.a0 c.a1 c.a2 t) = .BH
   lost : ∀ (bins : List (ClosedBin ℝ)) (mto : ℝ), (∀ b ∈ bins, 0 < b.l ∧ b.l < b.u) →
+    (∀ b ∈ bins, ((resolution : ℝ) ≤ PkCore b.a 1 b.l (truncU b mto) ∧ (resolution : ℝ) ≤ PkCore b.a 2 b.l (truncU b mto)) ∨
+      ideal b mto = 0) →
     losses bins (bins.map (ideal · mto)) mto = (sumL (bins.map (above 1 · mto)), sumL (bins.map (above 2 · mto)))
   mass_not_gained : ∀ (b : ClosedBin ℝ) (p q yp yq : ℝ), 0 < p → p < q → 0 ≤ b.A → yp ≤ p → yq ≤ q →
     (pieceNM b p q yp yq).2 ≤ b.A * PkCore b.a 2 p q
